@@ -353,7 +353,7 @@ func (st *Runtime) executeYieldBlock(block *BlockNode, blockParam, yieldParam *B
 			p := &yieldParam.List[i]
 
 			if p.Expression == nil {
-				block.errorf("missing name for block parameter '%s'", blockParam.List[i].Identifier)
+				block.errorf("missing name for block parameter '%s'", p.Identifier)
 			}
 
 			st.variables[p.Identifier] = st.evalPrimaryExpressionGroup(p.Expression)
